@@ -1,6 +1,6 @@
 #!/bin/sh
 # lib/seedall.sh Cxx : validate every seed under /tmp/seed/Cxx/_out and print one summary line each
-for s in /tmp/seed/$1/_out/*/; do python3 /verif/lib/seedtest.py $s --keep 2>/dev/null | python3 -c "
+for s in ${SEEDBASE:-/tmp/seed}/$1/_out/*/; do python3 /verif/lib/seedtest.py $s --keep 2>/dev/null | python3 -c "
 import sys,json
 t=sys.stdin.read()
 try: d=json.loads(t)
